@@ -61,7 +61,17 @@ def run(ctx):
             if m == "truncate" and ok:
                 amt = show(f.expr_op(t["args"][1], deep=False))
                 amt_deep = show(f.expr_op(t["args"][1]))
-                src_ok = amt.startswith("(cp.") or amt.startswith("cp.") or mir.canon_atom(f.expr_op(t["args"][1])) == f"len(self.{fld})"
+                # a field of a checkpoint value (whatever the locals are called), or the vector's own length recorded earlier
+                ex = strip(f.denamed(f.expr_op(t["args"][1])))
+                while ex[0] in ("cast", "ref", "deref"):
+                    ex = strip(ex[2] if ex[0] in ("cast", "ref") else ex[1])
+                from_cp = False
+                if ex[0] == "field":
+                    base = strip(ex[1])
+                    while base[0] in ("deref", "ref", "field"):
+                        base = strip(base[1] if base[0] in ("deref", "field") else base[2])
+                    from_cp = base[0] == "var" and "Checkpoint" in f.local_ty(base[2])
+                src_ok = from_cp or mir.canon_atom(f.expr_op(t["args"][1])) == f"len(self.{fld})"
                 # entry length: the local is defined before any growth of that vector
                 detail = f"truncate({amt})"
                 ok = src_ok
@@ -80,7 +90,7 @@ def run(ctx):
                           detail=show(f.expr_place(d, deep=False)))
             rv_mut = [st for st in f.stmts(b) if "rv" in st and "ref" in st["rv"] and st["rv"]["ref"][0] == "mut"
                       and any(x in ac.VEC_OF for x in mir.place_fields(st["rv"]["ref"][1]))]
-    ck.floor("&mut uses of allocator storage vectors", nuse, 18)
+    ck.floor("&mut uses of allocator storage vectors", nuse, 13)
 
     # ---------------------------------------------------------------- R14c
     mask = cr.const_val("allocator::NODE_PTR_IDX_MASK")
@@ -146,8 +156,9 @@ def run(ctx):
                   site=g.where(b), detail=form or {"test": show(e), "why": "the small-integer view must exist exactly for minimal non-negative encodings below 2^26"})
     fs = cr.fn("allocator::fits_in_small_atom")
     lens = sorted(show_norm(compare_norm(fs.switch_cond(b))) for b in fs.reachable_blocks()
-                  if fs.term(b)["k"] == "switch" and compare_norm(fs.switch_cond(b)) and "len(v)" in show_norm(compare_norm(fs.switch_cond(b))))
-    ck.ob("R14c", "allocator::fits_in_small_atom|lengths", lens == ["+len(v) -1 ==0", "+len(v) -4 ==0", "+len(v) -4 >0"],
+                  if fs.term(b)["k"] == "switch" and compare_norm(fs.switch_cond(b)) and "len($1)" in fs.unparam(show_norm(compare_norm(fs.switch_cond(b)))))
+    lens = fs.unparam(lens)
+    ck.ob("R14c", "allocator::fits_in_small_atom|lengths", lens == ["+len($1) -1 ==0", "+len($1) -4 ==0", "+len($1) -4 >0"],
           "more than 4 bytes never fit; 1-byte zero and 4-byte overflow are the special lengths", site=fs.where(0), detail=lens)
     for name in ("new_number", "new_malachite_number"):
         g = cr.fn(A + name)
@@ -208,7 +219,15 @@ def run(ctx):
     ck.analysed(ae)
     calls = sorted(set((t.get("callee") or "") for _, t in ae.calls()))
     mixed = [t for _, t in ae.calls_to(A + "bytes_eq_int")]
-    slice_eq = any("PartialEq" in c and "[" in c for c in calls)
+    # a byte comparison: PartialEq::eq/ne whose operands are byte slices (by operand TYPE - directly, or through a private
+    # accessor that returns the atom's bytes); comparing anything else (e.g. the AtomBuf ranges) is not a byte comparison
+    def bytes_cmp(t):
+        c = t.get("callee") or ""
+        if "PartialEq" not in c or c.split("::")[-1] not in ("eq", "ne") or not t.get("args"):
+            return False
+        pl = mir.op_place(t["args"][0])
+        return bool(pl) and "[u8]" in ae.local_ty(pl["l"])
+    slice_eq = any(bytes_cmp(t) for _, t in ae.calls())
     ck.ob("R14e", A + "atom_eq", len(mixed) == 2 and slice_eq,
           "same-kind atoms compare by bytes / by value; mixed kinds through bytes_eq_int (both orders)", site=ae.where(0),
           detail=[c for c in calls if "index" not in c.lower()][:12])
@@ -220,17 +239,15 @@ def run(ctx):
                 rets.append(show(ae.denamed(ae.expr_rvalue(st["rv"]))))
         t = ae.term(b)
         if t["k"] == "call" and t["dst"]["l"] == 0 and not t["dst"]["p"]:
-            rets.append("call " + (t.get("callee") or "?").split("::")[-1])
+            rets.append("call bytes-compare" if bytes_cmp(t) else "call " + (t.get("callee") or "?").split("::")[-1])
     kinds = []
     for r in rets:
         if r.startswith("call bytes_eq_int"):
             kinds.append("mixed")
-        elif r.startswith("call ") and ("eq" in r or "ne" in r):
+        elif r == "call bytes-compare":
             kinds.append("bytes")
         elif " Eq " in r and "NodePtr::index" in r:
             kinds.append("inline")
-        elif "PartialEq" in r or "::eq(" in r:
-            kinds.append("bytes")
         else:
             kinds.append("other: " + r[:80])
     ck.ob("R14e", A + "atom_eq|returns", sorted(kinds) == ["bytes", "inline", "mixed", "mixed"],
@@ -264,17 +281,18 @@ def run(ctx):
           "small_number: inline atoms give their value, heap atoms exactly fits_in_small_atom(bytes) (no other exit in that arm), pairs None",
           site=sn.where(0), detail=by_arm)
     be = cr.fn(A + "bytes_eq_int")
-    tests = [show_norm(compare_norm(be.switch_cond(b))) for b in sorted(be.reachable_blocks()) if be.term(b)["k"] == "switch" and compare_norm(be.switch_cond(b))]
-    ok = len(tests) == 3 and tests[0] in ("+atom.end -atom.start -len !=0", "+allocator::len_for_value(val) -atom.end +atom.start !=0",
-                                          "-allocator::len_for_value(val) +atom.end -atom.start !=0") \
-        and tests[1] == "+val ==0" and "BitAnd 128) !=0" in tests[2]
+    # parameters by position: (self, atom $2, val $3)
+    tests = [be.unparam(show_norm(compare_norm(be.switch_cond(b)))) for b in sorted(be.reachable_blocks()) if be.term(b)["k"] == "switch" and compare_norm(be.switch_cond(b))]
+    ok = len(tests) == 3 and tests[0] in ("+allocator::len_for_value($3) -$2.end +$2.start !=0",
+                                          "-allocator::len_for_value($3) +$2.end -$2.start !=0") \
+        and tests[1] == "+$3 ==0" and "BitAnd 128) !=0" in tests[2]
     lencall = any((t.get("callee") or "") == "allocator::len_for_value" for _, t in be.calls())
     ret = []
     for b in be.reachable_blocks():
         for st in be.stmts(b):
             if st.get("d") and st["d"]["l"] == 0:
-                ret.append(show(be.expr_rvalue(st["rv"], deep=False)))
-    ck.ob("R14e", A + "bytes_eq_int", ok and lencall and "(val Eq atom_val)" in ret,
+                ret.append(show(be.denamed(be.expr_rvalue(st["rv"], deep=False))))
+    ck.ob("R14e", A + "bytes_eq_int", ok and lencall and ("($3 Eq %u32#0)" in ret or "(%u32#0 Eq $3)" in ret),
           "heap bytes equal an inline integer iff length == len_for_value(val), the sign bit is clear and the big-endian value is equal",
           site=be.where(0), detail={"tests": tests, "returns": ret})
 
@@ -295,9 +313,20 @@ def ret_const(f, path):
 
 
 def local_const(f, path, name):
-    ls = f.local_by_name(name)
-    if not ls:
-        return None
+    """value of the table local on `path`.  The local is found by role, not by name: the only local all of whose (several)
+    assignments are integer constants - `name` is used in messages only."""
+    ls = []
+    for l in range(f.nargs + 1, len(f.locals)):
+        ds = [d for d in f.defs(l) if d[1] != "T"]
+        if len(ds) >= 4 and all(const_eval(f.expr_rvalue(f.def_rvalue(d), deep=False)) is not None for d in ds):
+            ls.append(l)
+    if len(ls) != 1:
+        raise mir.AnchorMissing(f"{f.path}: the constant-table local (`{name}` today) not found uniquely: {ls}")
+    for b in reversed(path):
+        for st in reversed(f.stmts(b)):
+            if st.get("d") and st["d"]["l"] == ls[0] and not st["d"]["p"]:
+                return const_eval(f.expr_rvalue(st["rv"], deep=False))
+    return None
     for b in reversed(path):
         for st in reversed(f.stmts(b)):
             if st.get("d") and st["d"]["l"] == ls[0] and not st["d"]["p"]:
